@@ -715,21 +715,21 @@ theorem podsRel_isEmpty {gs : List GPod} {ms : List Pod} (h : PodsRel gs ms) :
 translated function is the model's `manageCanaryPodFailures` on the canonical form of the pods: same panics (nil
 `Canary` / `AutoPause` / `AutoFail` fields, nil `StartTime` where the slow-start gate reads it), same flags and
 reasons, same status (conditions and `canary-failed`). -/
-theorem src_manageCanaryPodFailures (gs : List GPod) (ms : List Pod) (hrel : PodsRel gs ms)
-    (hwf : ∀ g ∈ gs, podLastStatesWF g) (strat : Strategy) (pst st : ERSStatus) (R : GResult)
+theorem src_manageCanaryPodFailures_gen (gs : List GPod) (ms : List Pod) (hrel : PodsRel gs ms)
+    (hwf : ∀ g ∈ gs, podLastStatesWF g) (P : GParams) (strat : Strategy) (pst st : ERSStatus) (R : GResult)
+    (hPs : P.strategy = some strat) (hPn : P.newStatus = some pst)
     (hst : R.newStatus = some st) (hfr : R.failedReason = "") (now : Time) :
-    Generated.Decisions.manageCanaryPodFailures (gs.map some)
-        (some { strategy := some strat, newStatus := some pst }) (some R) now =
+    Generated.Decisions.manageCanaryPodFailures (gs.map some) (some P) (some R) now =
       match Eds.manageCanaryPodFailures ms strat.canary pst st R.isFailed R.isPaused R.pausedReason R.isUnpaused now with
       | none => none
       | some (s, st') =>
         some (some { R with isFailed := s.isFailed, failedReason := s.failedReason, isPaused := s.isPaused,
                             pausedReason := s.pausedReason, newStatus := some st' }) := by
-  rcases R with ⟨fz, ip, pr, iu, ifl, fr, ns⟩
+  rcases R with ⟨fz, ip, pr, iu, ifl, fr, ns, ptc, ptd, rr⟩
   simp only at hst hfr
   subst hst hfr
   unfold Generated.Decisions.manageCanaryPodFailures Eds.manageCanaryPodFailures canaryDerefs
-  simp only [Option.bind_some]
+  simp only [Option.bind_some, hPs]
   cases hcan : strat.canary with
   | none => simp
   | some c =>
@@ -755,16 +755,17 @@ theorem src_manageCanaryPodFailures (gs : List GPod) (ms : List Pod) (hrel : Pod
     intro x; cases x <;> rfl
   have hR0 : ∀ b : Bool,
       (if b = true then ({ isFrozen := fz, isPaused := false, pausedReason := "", isUnpaused := iu, isFailed := ifl,
-                            failedReason := "", newStatus := some st } : GResult)
+                            failedReason := "", newStatus := some st, podsToCreate := ptc, podsToDelete := ptd, result := rr } : GResult)
        else { isFrozen := fz, isPaused := ip, pausedReason := pr, isUnpaused := iu, isFailed := ifl,
-              failedReason := "", newStatus := some st }) =
+              failedReason := "", newStatus := some st, podsToCreate := ptc, podsToDelete := ptd, result := rr }) =
       withState { isFrozen := fz, isPaused := ip, pausedReason := pr, isUnpaused := iu, isFailed := ifl,
-                  failedReason := "", newStatus := some st }
+                  failedReason := "", newStatus := some st, podsToCreate := ptc, podsToDelete := ptd, result := rr }
         { isFailed := ifl, failedReason := "", isPaused := if b = true then false else ip,
           pausedReason := if b = true then "" else pr } := by
     intro b; cases b <;> simp [withState]
-  simp only [hap, hape, hapm, haf, hafe, hafm, Option.bind_some, src_getERSCondition, hmrd, podsRel_isEmpty hrel, hR0]
-  refine (failLoop af.canaryTimeout afe afm af.maxRestartsDuration ape apm now _ strat c ap rfl hcan hap _ _ _ _
+  simp only [hPs, hPn, hcan, hap, hape, hapm, haf, hafe, hafm, Option.bind_some, src_getERSCondition, hmrd,
+    podsRel_isEmpty hrel, hR0]
+  refine (failLoop af.canaryTimeout afe afm af.maxRestartsDuration ape apm now _ strat c ap hPs hcan hap _ _ _ _
     gs ms hrel hwf 0 { isFailed := ifl, failedReason := "",
                        isPaused := if (ms.isEmpty && iu && !ifl) = true then false else ip,
                        pausedReason := if (ms.isEmpty && iu && !ifl) = true then "" else pr } rfl).trans ?_
@@ -788,6 +789,20 @@ theorem src_manageCanaryPodFailures (gs : List GPod) (ms : List Pod) (hrel : Pod
         cases hcs : s'.cannotStart <;> cases hfl : s'.isFailed <;>
         simp [h1, src_updateERSCondition, boolCond]
   · simp
+
+/-- `src_manageCanaryPodFailures_gen` on the parameters that carry nothing but `Strategy` and `NewStatus` (the other
+fields are not read by the function). -/
+theorem src_manageCanaryPodFailures (gs : List GPod) (ms : List Pod) (hrel : PodsRel gs ms)
+    (hwf : ∀ g ∈ gs, podLastStatesWF g) (strat : Strategy) (pst st : ERSStatus) (R : GResult)
+    (hst : R.newStatus = some st) (hfr : R.failedReason = "") (now : Time) :
+    Generated.Decisions.manageCanaryPodFailures (gs.map some)
+        (some { strategy := some strat, newStatus := some pst }) (some R) now =
+      match Eds.manageCanaryPodFailures ms strat.canary pst st R.isFailed R.isPaused R.pausedReason R.isUnpaused now with
+      | none => none
+      | some (s, st') =>
+        some (some { R with isFailed := s.isFailed, failedReason := s.failedReason, isPaused := s.isPaused,
+                            pausedReason := s.pausedReason, newStatus := some st' }) :=
+  src_manageCanaryPodFailures_gen gs ms hrel hwf _ strat pst st R rfl rfl hst hfr now
 
 /-! **The hypothesis `podLastStatesWF` is necessary** (the finding of BridgeConds carried to its caller): on the pod
 with a restarted container whose `lastState` is set to `running`, `HighestRestartCount` dereferences the nil
